@@ -594,6 +594,13 @@ WALLS = {
     'bowed': [(0, 0), (6, 0), (7, 2), (6, 4), (0, 4), (-1, 2)],
     'slanted-quad': [(0, 0), (5, 1), (5, 4), (0, 3)],
     'arrow': [(0, 0), (6, 0), (6, 3), (4, 3), (3, 5), (2, 3), (0, 3)],
+    # dents in one side that do not reach across the rectangle side: only one of the two side
+    # midpoints lies outside the face
+    'v-notch-right': [(0, 0), (6, 0), (4, 1.5), (6, 3), (0, 3)],
+    'v-notch-left': [(0, 0), (6, 0), (6, 3), (0, 3), (2, 1.5)],
+    'v-notch-right-shallow': [(0, 0), (6, 0), (5.5, 2), (6, 3), (0, 3)],
+    'step-notch-right': [(0, 0), (6, 0), (6, 1), (5, 1), (5, 2), (6, 2), (6, 3), (0, 3)],
+    'v-notch-both': [(0, 0), (6, 0), (5, 1.5), (6, 3), (0, 3), (1, 1.5)],
 }
 
 
